@@ -599,6 +599,29 @@ func (t *Terminfo) TParm(s string, p ...interface{}) string {
 	return pb.End()
 }
 
+// isPadding reports whether val (the text between "$<" and ">") is a padding
+// specification: a number with an optional fraction, followed by any of the
+// '*' and '/' suffixes.
+func isPadding(val string) bool {
+	i := 0
+	for i < len(val) && val[i] >= '0' && val[i] <= '9' {
+		i++
+	}
+	if i == 0 {
+		return false
+	}
+	if i < len(val) && val[i] == '.' {
+		i++
+		for i < len(val) && val[i] >= '0' && val[i] <= '9' {
+			i++
+		}
+	}
+	for i < len(val) && (val[i] == '*' || val[i] == '/') {
+		i++
+	}
+	return i == len(val)
+}
+
 // TPuts emits the string to the writer, but expands inline padding
 // indications (of the form $<[delay]> where [delay] is msec) to
 // a suitable time (unless the terminfo string indicates this isn't needed
@@ -621,6 +644,11 @@ func (t *Terminfo) TPuts(w io.Writer, s string) {
 			return
 		}
 		val := s[:end]
+		if !isPadding(val) {
+			// not a padding specification: it is ordinary text
+			_, _ = io.WriteString(w, "$<")
+			continue
+		}
 		s = s[end+1:]
 		padus := 0
 		unit := time.Millisecond
